@@ -280,7 +280,7 @@ class DisambiguateChoices(RelativeHandlerInterface):
         """
         extension = Extension(
             tag=Tag.EXTENSION,
-            type=choice.types[0].clone(forward=False, circular=False),
+            type=choice.types[0].clone(circular=False),
             restrictions=Restrictions(),
         )
         reference.extensions.append(extension)
